@@ -17,6 +17,8 @@ import AnsiProofs.Props.C10
     2. `set_ansi_str` hands out identities in `[nid, next)` only (`setAnsi_ids`);
     3. the store invariant `StoreInv`, admissible new values `Adm`, `inv_commit`;
     4. every operation produces an admissible value (`adm_…`), the loop of `replace` included;
+       (4b: the operations added later — `zfill`, `clip`, `join`, `fmatch`, `unfmatch`, the pieces of
+       `split`/`splitlines`/`partition`, `expandtabs`);
     5. `inv_step`, `inv_run`;
     6. the error classes an operation can raise (`scrub_noIndex`, `…_noIndex`).
 -/
@@ -316,6 +318,12 @@ theorem inv_fromExcept {σ : Store} (h : StoreInv σ) (v : Var) (r : Except PyEr
   | ok y => exact inv_commit h (hr y rfl) v
   | error e => exact h
 
+theorem inv_piece {σ : Store} (h : StoreInv σ) (d : Var) (o : Option AStr)
+    (ho : ∀ p, o = some p → Adm σ p) : StoreInv (σ.piece d o).1 := by
+  cases o with
+  | some p => exact inv_commit h (ho p rfl) d
+  | none => exact h
+
 theorem inv_pad1 {σ : Store} (h : StoreInv σ) (d : Var) (fill : Str) (f : Char → AStr)
     (hf : ∀ c, Adm σ (f c)) : StoreInv (σ.pad1 d fill f).1 := by
   unfold Store.pad1
@@ -545,6 +553,165 @@ theorem adm_replace_str (hσ : StoreInv σ) {v : Var} {x : AStr} (hx : σ.get? v
     (old raw : Str) (count : Int) : Adm σ (x.replace old (.str raw) count σ.nid) :=
   replaceLoop_adm_str old raw _ _ _ _ _ (Nat.le_refl _) (adm_self hσ hx) (hσ.fresh v x hx)
 
+/-! ### 4b. the operations added later -/
+
+theorem adm_zfill {x : AStr} (hx : Adm σ x) (w : Int) : Adm σ (x.zfill w) := adm_rjust hx w '0' true
+
+/-- the empty value (`AnsiString()`, the second and third component of a failed `partition`) -/
+theorem adm_empty : Adm σ ({} : AStr) :=
+  ⟨ParseTextL.wf_plain [], fun s hs => by cases hs⟩
+
+/-- `getAll` returns values of the store -/
+theorem getAll_mem : ∀ (vs : List Var) (xs : List AStr), σ.getAll vs = some xs →
+    ∀ y ∈ xs, ∃ v, σ.get? v = some y
+  | [], xs, h, y, hy => by
+    simp only [Store.getAll, Option.some.injEq] at h
+    subst h; cases hy
+  | v :: vs, xs, h, y, hy => by
+    simp only [Store.getAll] at h
+    split at h
+    · rename_i x xs' hx hxs
+      simp only [Option.some.injEq] at h
+      subst h
+      rcases List.mem_cons.mp hy with e | hm
+      · exact ⟨v, by rw [e]; exact hx⟩
+      · exact getAll_mem vs xs' hxs y hm
+    · cases h
+
+/-- the left fold of `join`: every intermediate value is admissible — it is made of the store's
+    objects, hence coherent with the next operand -/
+theorem adm_foldl_iadd (hσ : StoreInv σ) : ∀ (xs : List AStr) (acc : AStr),
+    (∀ y ∈ xs, ∃ v, σ.get? v = some y) → Adm σ acc → Adm σ (xs.foldl AStr.iadd acc)
+  | [], _, _, ha => ha
+  | y :: ys, acc, hxs, ha => by
+    obtain ⟨v, hv⟩ := hxs y List.mem_cons_self
+    exact adm_foldl_iadd hσ ys (acc.iadd y) (fun z hz => hxs z (List.mem_cons_of_mem _ hz))
+      (adm_iadd ha (adm_self hσ hv) (coh_adm_old hσ ha (all_old hv)))
+
+theorem adm_join (hσ : StoreInv σ) {vs : List Var} {xs : List AStr} (h : σ.getAll vs = some xs) :
+    Adm σ (AStr.join xs) := by
+  have hm := getAll_mem vs xs h
+  cases xs with
+  | nil => exact adm_empty
+  | cons x rest =>
+    obtain ⟨v, hv⟩ := hm x List.mem_cons_self
+    exact adm_foldl_iadd hσ rest x (fun z hz => hm z (List.mem_cons_of_mem _ hz)) (adm_self hσ hv)
+
+/-- the loop of `format_matching` with identities from `n ≥ σ.nid` on: the settings of the result are
+    old ones or new (by induction over the spans, every iteration is an `applyRaw` with identities
+    above the store's counter and above everything the accumulator holds) -/
+theorem adm_matchLoop {n : Nat} (hn : σ.nid ≤ n) (a : SArg) : ∀ (l : List (Int × Int)) (x y : AStr),
+    Adm σ x →
+    l.foldlM (fun (acc : AStr) (se : Int × Int) =>
+      acc.applyRaw (max n acc.fmts.nextId) a (some se.1) (some se.2) true) x = .ok y → Adm σ y
+  | [], x, y, hx, h => by
+    simp only [List.foldlM_nil, pure, Except.pure, Except.ok.injEq] at h
+    rw [← h]; exact hx
+  | se :: l, x, y, hx, h => by
+    obtain ⟨z, hz, hl⟩ := MatchL.foldlM_cons_ok h
+    have hf : FreshFrom x (max n x.fmts.nextId) := by
+      intro s hs
+      have := C16.nextId_fresh x s hs
+      omega
+    exact adm_matchLoop hn a l z y (adm_applyRaw hx (by omega) hf hz) hl
+
+theorem adm_fmatch (hσ : StoreInv σ) {v : Var} {x y : AStr} (hx : σ.get? v = some x) {a : SArg}
+    {spans : List (Int × Int)} {count : Int} (h : x.formatMatchingFrom σ.nid a spans count = .ok y) :
+    Adm σ y :=
+  adm_matchLoop (Nat.le_refl _) a _ x y (adm_self hσ hx) h
+
+/-- the facts of C16 (`matching_text`, `matching_wf`, `matching_outside`) for the loop that numbers
+    from the store's counter: text kept, `WF` kept, characters outside all matches keep their settings -/
+theorem formatMatchingFrom_spec (x y : AStr) (n : Nat) (a : SArg) (spans : List (Int × Int)) (count : Int)
+    (h : x.formatMatchingFrom n a spans count = .ok y) :
+    y.s = x.s ∧ (WF x → WF y ∧ ∀ i : Nat,
+      (∀ se ∈ takeCount count spans,
+        i < sliceIdx x.len (some se.1) 0 ∨ sliceIdx x.len (some se.2) x.len ≤ i) → act y i = act x i) := by
+  have hf : ∀ z : AStr, FreshFrom z (max n z.fmts.nextId) := by
+    intro z s hs
+    have := C16.nextId_fresh z s hs
+    omega
+  refine MatchL.fold_spec
+    (step := fun acc se => acc.applyRaw (max n acc.fmts.nextId) a (some se.1) (some se.2) true)
+    ?_ ?_ ?_ _ h
+  · intro x y se h
+    rcases applyRaw_spec x y _ a _ _ true h with e | ⟨ts, _, e⟩
+    · rw [e]
+    · rw [e]; exact apply_text _ _ _ _ _
+  · intro x y se hw h
+    rcases applyRaw_spec x y _ a _ _ true h with e | ⟨ts, _, e⟩
+    · rw [e]; exact hw
+    · rw [e]; exact apply_wf _ _ _ _ _ hw (freshSettings_fresh x _ ts (hf x))
+  · intro x y se hw h i hi
+    rcases applyRaw_spec x y _ a _ _ true h with e | ⟨ts, _, e⟩
+    · rw [e]
+    · rw [e]
+      exact apply_outside x _ _ _ true rfl rfl hw (freshSettings_fresh x _ ts (hf x)) i hi
+
+theorem adm_unmatchLoop (a : Option SArg) : ∀ (l : List (Int × Int)) (x y : AStr), Adm σ x →
+    l.foldlM (fun (acc : AStr) (se : Int × Int) => acc.removeRaw a (some se.1) (some se.2)) x = .ok y →
+    Adm σ y
+  | [], x, y, hx, h => by
+    simp only [List.foldlM_nil, pure, Except.pure, Except.ok.injEq] at h
+    rw [← h]; exact hx
+  | se :: l, x, y, hx, h => by
+    obtain ⟨z, hz, hl⟩ := MatchL.foldlM_cons_ok h
+    exact adm_unmatchLoop a l z y (adm_removeRaw hx hz) hl
+
+theorem adm_unfmatch (hσ : StoreInv σ) {v : Var} {x y : AStr} (hx : σ.get? v = some x) {a : Option SArg}
+    {spans : List (Int × Int)} {count : Int} (h : x.unformatMatching a spans count = .ok y) : Adm σ y :=
+  adm_unmatchLoop a _ x y (adm_self hσ hx) h
+
+/-- the pieces of `split`/`rsplit`/`splitlines` are slices of the source -/
+theorem piecesAt_slices (x : AStr) (offs : List (Nat × Nat)) :
+    ∀ p ∈ x.piecesAt offs, ∃ a b, p = x.getSlice a b := by
+  intro p hp
+  unfold AStr.piecesAt at hp
+  obtain ⟨ol, -, e⟩ := List.mem_map.mp hp
+  exact ⟨_, _, e.symm⟩
+
+theorem splitGen_slices {x : AStr} {sep : Option Str} {m : Int} {r : Bool} {ps : List AStr}
+    (h : x.splitGen sep m r = .ok ps) : ∀ p ∈ ps, ∃ a b, p = x.getSlice a b := by
+  unfold AStr.splitGen at h
+  split at h
+  · cases h
+  · injection h with h; subst h; exact piecesAt_slices x _
+  · injection h with h; subst h; exact piecesAt_slices x _
+
+theorem adm_getElem? {x : AStr} (hx : Adm σ x) {ps : List AStr}
+    (hps : ∀ p ∈ ps, p = x ∨ ∃ a b, p = x.getSlice a b) (j : Nat) :
+    ∀ p, ps[j]? = some p → Adm σ p :=
+  fun p hp => adm_of_cases hx (hps p (List.mem_of_getElem? hp))
+
+theorem adm_splitPiece {x : AStr} (hx : Adm σ x) {sep : Option Str} {m : Int} {r : Bool}
+    {ps : List AStr} (h : x.splitGen sep m r = .ok ps) (j : Nat) : ∀ p, ps[j]? = some p → Adm σ p :=
+  adm_getElem? hx (fun p hp => Or.inr (splitGen_slices h p hp)) j
+
+theorem adm_linePiece {x : AStr} (hx : Adm σ x) (keepends : Bool) (j : Nat) :
+    ∀ p, (x.splitlines keepends)[j]? = some p → Adm σ p :=
+  adm_getElem? hx (fun p hp => Or.inr (piecesAt_slices x _ p hp)) j
+
+/-- the three components of `partition`/`rpartition`: slices of the source, or (no match) the
+    source and two empty values -/
+theorem adm_partPiece {x : AStr} (hx : Adm σ x) (sep : Str) (r : Bool) (j : Nat) :
+    ∀ p, [(x.partitionGen sep r).1, (x.partitionGen sep r).2.1, (x.partitionGen sep r).2.2][j]? = some p →
+      Adm σ p := by
+  intro p hp
+  have hm := List.mem_of_getElem? hp
+  unfold AStr.partitionGen at hm
+  split at hm
+  · simp only [List.mem_cons, List.not_mem_nil, or_false] at hm
+    rcases hm with e | e | e <;> rw [e] <;> exact adm_slice hx _ _
+  · simp only [List.mem_cons, List.not_mem_nil, or_false] at hm
+    rcases hm with e | e | e <;> rw [e]
+    · exact hx
+    · exact adm_empty
+    · exact adm_empty
+
+theorem adm_expandtabs (hσ : StoreInv σ) {v : Var} {x : AStr} (hx : σ.get? v = some x) (k : Int) :
+    Adm σ (x.expandtabs k σ.nid) :=
+  adm_replace_str hσ hx _ _ _
+
 end adm
 
 /-! ## 5. every operation keeps the invariant -/
@@ -601,6 +768,31 @@ theorem inv_step {σ : Store} (h : StoreInv σ) (op : Op) : StoreInv (σ.step op
   case find src a st en rev =>
     refine inv_withVal h src _ (fun x _ => ?_)
     split <;> exact h
+  case zfill d src wd =>
+    exact inv_withVal h src _ (fun x hx => inv_commit h (adm_zfill (adm_self h hx) wd) d)
+  case clip d src a b =>
+    exact inv_withVal h src _ (fun x hx => inv_commit h (adm_slice (adm_self h hx) a b) d)
+  case join d vs =>
+    split
+    · rename_i xs hxs
+      exact inv_commit h (adm_join h hxs) d
+    · exact h
+  case fmatch v a spans count =>
+    exact inv_withVal h v _ (fun x hx => inv_fromExcept h v _ (fun y hy => adm_fmatch h hx hy))
+  case unfmatch v a spans count =>
+    exact inv_withVal h v _ (fun x hx => inv_fromExcept h v _ (fun y hy => adm_unfmatch h hx hy))
+  case splitPiece d src sep m r j =>
+    refine inv_withVal h src _ (fun x hx => ?_)
+    split
+    · rename_i ps hps
+      exact inv_piece h d _ (adm_splitPiece (adm_self h hx) hps j)
+    · exact h
+  case linePiece d src ke j =>
+    exact inv_withVal h src _ (fun x hx => inv_piece h d _ (adm_linePiece (adm_self h hx) ke j))
+  case partPiece d src sep r j =>
+    exact inv_withVal h src _ (fun x hx => inv_piece h d _ (adm_partPiece (adm_self h hx) sep r j))
+  case expandtabs d src k =>
+    exact inv_withVal h src _ (fun x hx => inv_commit h (adm_expandtabs h hx k) d)
 
 theorem inv_init : StoreInv {} :=
   ⟨fun v x hx => by simp [Store.get?] at hx, fun v x hx => by simp [Store.get?] at hx,
@@ -771,6 +963,23 @@ theorem toStr_noIdx (x : AStr) (spec : Option Str) (o rs re : Bool) (nid : Nat) 
   refine noIdx_ite (noIdx_ok _) (noIdx_ite ?_ (noIdx_ok _))
   exact noIdx_bind (applySpec_noIdx _ _ _) (fun obj => noIdx_ok _)
 
+theorem formatMatchingFrom_noIdx (x : AStr) (nid : Nat) (a : SArg) (spans : List (Int × Int)) (count : Int) :
+    NoIdx (x.formatMatchingFrom nid a spans count) :=
+  foldlM_noIdx (fun _ _ => applyRaw_noIdx _ _ _ _ _ _) _ _
+
+theorem unformatMatching_noIdx (x : AStr) (a : Option SArg) (spans : List (Int × Int)) (count : Int) :
+    NoIdx (x.unformatMatching a spans count) :=
+  foldlM_noIdx (fun _ _ => removeRaw_noIdx _ _ _ _) _ _
+
+/-- `split`/`rsplit` raise nothing but the `ValueError` of an empty separator -/
+theorem splitGen_err (x : AStr) (sep : Option Str) (m : Int) (r : Bool) (e : PyErr)
+    (h : x.splitGen sep m r = .error e) : e = .valueError ∧ sep = some [] := by
+  unfold AStr.splitGen at h
+  split at h
+  · injection h with h; exact ⟨h.symm, rfl⟩
+  · cases h
+  · cases h
+
 /-- `x[i]` raises nothing but `IndexError` -/
 theorem getIndex_err (x : AStr) (i : Int) (e : PyErr) (h : x.getIndex i = .error e) : e = .indexError := by
   unfold AStr.getIndex at h
@@ -821,6 +1030,11 @@ theorem doc_fromExcept (σ : Store) (v : Var) {r : Except PyErr AStr} (hr : NoId
   | ok x => exact Or.inl rfl
   | error e => exact doc_err (fun h => hr (by rw [h]))
 
+theorem total_piece (σ : Store) (d : Var) (o : Option AStr) : Total (σ.piece d o).2 := by
+  cases o with
+  | some p => exact Or.inl rfl
+  | none => exact Or.inr rfl
+
 theorem doc_pad1 (σ : Store) (d : Var) (fill : Str) (f : Char → AStr) : Doc (σ.pad1 d fill f).2 := by
   unfold Store.pad1
   split
@@ -830,7 +1044,9 @@ theorem doc_pad1 (σ : Store) (d : Var) (fill : Str) (f : Char → AStr) : Doc (
 /-- the operations that cannot fail -/
 def neverFails : Op → Bool
   | .clear _ | .slice _ _ _ _ | .iadd _ _ | .add _ _ _ | .addStr _ _ _ | .assign _ _ | .simplify _
-  | .strip _ _ _ _ _ | .removeprefix _ _ _ | .removesuffix _ _ _ | .replace _ _ _ _ _ => true
+  | .strip _ _ _ _ _ | .removeprefix _ _ _ | .removesuffix _ _ _ | .replace _ _ _ _ _
+  | .zfill _ _ _ | .clip _ _ _ _ | .join _ _ | .linePiece _ _ _ _ | .partPiece _ _ _ _ _
+  | .expandtabs _ _ _ => true
   | _ => false
 
 theorem step_total (σ : Store) (op : Op) (h : neverFails op = true) : Total (σ.step op).2 := by
@@ -850,6 +1066,15 @@ theorem step_total (σ : Store) (op : Op) (h : neverFails op = true) : Total (σ
     cases new with
     | inr t => exact total_commit σ d _
     | inl u => exact total_withVal σ u _ (fun y => total_commit σ d _)
+  case zfill d src wd => exact total_withVal σ src _ (fun x => total_commit σ d _)
+  case clip d src a b => exact total_withVal σ src _ (fun x => total_commit σ d _)
+  case join d vs =>
+    split
+    · exact total_commit σ d _
+    · exact Or.inr rfl
+  case linePiece d src ke j => exact total_withVal σ src _ (fun x => total_piece σ d _)
+  case partPiece d src sep r j => exact total_withVal σ src _ (fun x => total_piece σ d _)
+  case expandtabs d src k => exact total_withVal σ src _ (fun x => total_commit σ d _)
 
 /-- every operation but the integer index: no `IndexError` -/
 theorem step_doc (σ : Store) (op : Op) (hop : ∀ d s i, op ≠ .index d s i) : Doc (σ.step op).2 := by
@@ -879,6 +1104,17 @@ theorem step_doc (σ : Store) (op : Op) (hop : ∀ d s i, op ≠ .index d s i) :
       · exact Or.inr (Or.inr (Or.inl ⟨_, _, rfl⟩))
       · rename_i e he
         exact doc_err (fun h => this (by rw [he, h]))
+    case fmatch v a spans count =>
+      exact doc_withVal σ v _ (fun x => doc_fromExcept σ v (formatMatchingFrom_noIdx _ _ _ _ _))
+    case unfmatch v a spans count =>
+      exact doc_withVal σ v _ (fun x => doc_fromExcept σ v (unformatMatching_noIdx _ _ _ _))
+    case splitPiece d src sep m r j =>
+      refine doc_withVal σ src _ (fun x => ?_)
+      split
+      · exact (total_piece σ d _).doc
+      · rename_i e he
+        rw [(splitGen_err x sep m r e he).1]
+        exact doc_err (by intro h; cases h)
 
 /-- the integer index: success, `IndexError`, or an unbound variable -/
 theorem step_index (σ : Store) (d src : Var) (i : Int) :
@@ -930,5 +1166,26 @@ theorem pad1_outcome (σ : Store) (d : Var) (fill : Str) (f : Char → AStr) :
     refine ⟨fun h => ?_, fun _ => rfl⟩
     match fill, h, hne with
     | [c], _, hne => exact absurd rfl (hne c)
+
+/-- `split`/`rsplit`: an empty separator is a `ValueError` (as for `str`), anything else succeeds
+    (`unbound`: the script named a variable or a piece that does not exist) -/
+theorem splitPiece_outcome (σ : Store) (d src : Var) (sep : Option Str) (m : Int) (r : Bool) (j : Nat) :
+    (sep ≠ some [] → Total (σ.step (.splitPiece d src sep m r j)).2) ∧
+    (sep = some [] → (σ.step (.splitPiece d src sep m r j)).2 = .err .valueError ∨
+      (σ.step (.splitPiece d src sep m r j)).2 = .unbound) := by
+  simp only [Store.step]
+  constructor
+  · intro hs
+    refine total_withVal σ src _ (fun x => ?_)
+    split
+    · exact total_piece σ d _
+    · rename_i e he
+      exact absurd (splitGen_err x sep m r e he).2 hs
+  · intro hs
+    subst hs
+    unfold Store.withVal
+    cases σ.get? src with
+    | none => exact Or.inr rfl
+    | some x => exact Or.inl rfl
 
 end StoreL
